@@ -9,6 +9,7 @@ import (
 	"fmt"
 	"go/types"
 	"math/big"
+	"os"
 	"strings"
 	"sync"
 
@@ -28,6 +29,8 @@ type redisModel struct {
 	failNext value // bool | symBool: calls fail while set
 	calls    int
 	scripts  int
+	failAt   int
+	failAtSet bool
 	writes   int
 	noTTLWrites int
 	log      []string
@@ -55,6 +58,9 @@ func (m *redisModel) find(key value) *redisEntry {
 		}
 		if !r.truth(r.eqv(types.Typ[types.String], e.key, key)) {
 			continue
+		}
+		if os.Getenv("VERIF_DEBUG_REDIS") != "" {
+			fmt.Fprintf(os.Stderr, "redis: find %v: entry expireAt=%v now=%v\n", toString(key), toString(e.expireAt), toString(m.nowMs()))
 		}
 		if e.expireAt != nil && r.truth(binop(r, tokenLEQ, nil, e.expireAt, m.nowMs())) {
 			e.dead = true
@@ -143,6 +149,17 @@ func (m *redisModel) command(l *luaState, args []luaVal) luaVal {
 	}
 	cmd := strings.ToUpper(cs)
 	a := args[1:]
+	if os.Getenv("VERIF_DEBUG_REDIS") != "" {
+		fmt.Fprintf(os.Stderr, "redis: %s", cmd)
+		for _, x := range a {
+			if x.s != nil {
+				fmt.Fprintf(os.Stderr, " %v", toString(x.s))
+			} else if x.n != nil {
+				fmt.Fprintf(os.Stderr, " #%s", x.n.name)
+			}
+		}
+		fmt.Fprintf(os.Stderr, " (now_ms=%v)\n", toString(m.nowMs()))
+	}
 	need := func(n int) {
 		if len(a) < n {
 			panic(luaError{"ERR wrong number of arguments for '" + strings.ToLower(cmd) + "' command"})
@@ -448,6 +465,9 @@ func (m *redisModel) preCall(fr *frame, ctx value) (value, bool) {
 	if e := r.ctxErr(fr, ctx).(iface); e.t != nil {
 		return e, true
 	}
+	if m.failAtSet && m.calls-1 == m.failAt {
+		return r.newError("redis model: store unreachable (injected fault)"), true
+	}
 	if r.truth(m.failNext) {
 		return r.newError("redis model: store unreachable (injected fault)"), true
 	}
@@ -503,6 +523,119 @@ func init() {
 		}
 		return true
 	})
+
+	// ---- Go-level commands of core/stores/redis (the four-line getRedis/conn.X/Result glue of each is
+	// replaced by the model; documented reply conversions: GET miss => "", nil)
+	const rp = "(*github.com/zeromicro/go-zero/core/stores/redis.Redis)."
+	lstr := func(v value) luaVal { return luaVal{k: lStr, s: v} }
+	run := func(fr *frame, ctx value, args ...luaVal) (luaVal, value) {
+		r := fr.i.run
+		m := r.redisModel()
+		if e, failed := m.preCall(fr, ctx); failed {
+			return luaNilV, e
+		}
+		l := &luaState{r: r, rm: m}
+		var out luaVal
+		failed := ""
+		func() {
+			defer func() {
+				if p := recover(); p != nil {
+					if le, ok := p.(luaError); ok {
+						failed = le.msg
+						return
+					}
+					panic(p)
+				}
+			}()
+			out = m.command(l, args)
+		}()
+		if failed != "" {
+			return luaNilV, r.newError(failed)
+		}
+		return out, iface{}
+	}
+	reg(rp+"GetCtx", func(fr *frame, a []value) value {
+		r := fr.i.run
+		out, err := run(fr, a[1], lstr("GET"), lstr(a[2]))
+		if err.(iface).t != nil {
+			return tuple{"", err}
+		}
+		if out.k != lStr {
+			return tuple{"", iface{}} // miss: redis.Nil is mapped to ("", nil)
+		}
+		l := &luaState{r: r, rm: r.redisModel()}
+		return tuple{l.strValue(out), iface{}}
+	})
+	setWithTTL := func(fr *frame, ctx, key, val, seconds value, nx bool) (luaVal, value) {
+		r := fr.i.run
+		args := []luaVal{lstr("SET"), lstr(key), lstr(val)}
+		if nx {
+			args = append(args, lstr("NX"))
+		}
+		// go-redis: expiration > 0 => EX seconds, otherwise a plain (persistent) SET
+		if r.truth(binop(r, tokenLSS, nil, conv(r, types.Typ[types.Int64], types.Typ[types.Int], 0), conv(r, types.Typ[types.Int64], types.Typ[types.Int], seconds))) {
+			t, _ := r.intTerm(seconds)
+			args = append(args, lstr("EX"), luaVal{k: lNum, n: t})
+		}
+		return run(fr, ctx, args...)
+	}
+	reg(rp+"SetexCtx", func(fr *frame, a []value) value {
+		_, err := setWithTTL(fr, a[1], a[2], a[3], a[4], false)
+		return err
+	})
+	reg(rp+"SetCtx", func(fr *frame, a []value) value {
+		_, err := run(fr, a[1], lstr("SET"), lstr(a[2]), lstr(a[3]))
+		return err
+	})
+	reg(rp+"SetnxExCtx", func(fr *frame, a []value) value {
+		out, err := setWithTTL(fr, a[1], a[2], a[3], a[4], true)
+		if err.(iface).t != nil {
+			return tuple{false, err}
+		}
+		return tuple{out.k == lStatus, iface{}}
+	})
+	reg(rp+"SetnxCtx", func(fr *frame, a []value) value {
+		out, err := run(fr, a[1], lstr("SET"), lstr(a[2]), lstr(a[3]), lstr("NX"))
+		if err.(iface).t != nil {
+			return tuple{false, err}
+		}
+		return tuple{out.k == lStatus, iface{}}
+	})
+	delCmd := func(fr *frame, ctx value, keys []value) value {
+		if len(keys) == 0 {
+			return tuple{0, fr.i.run.newError("ERR wrong number of arguments for 'del' command")}
+		}
+		args := []luaVal{lstr("DEL")}
+		for _, k := range keys {
+			args = append(args, lstr(k))
+		}
+		out, err := run(fr, ctx, args...)
+		if err.(iface).t != nil {
+			return tuple{0, err}
+		}
+		return tuple{int(out.n.ival.Int64()), iface{}}
+	}
+	reg(rp+"DelCtx", func(fr *frame, a []value) value { return delCmd(fr, a[1], variadic(a[2])) })
+	reg(rp+"Del", func(fr *frame, a []value) value { return delCmd(fr, nil, variadic(a[1])) })
+	reg(rp+"ExistsCtx", func(fr *frame, a []value) value {
+		out, err := run(fr, a[1], lstr("EXISTS"), lstr(a[2]))
+		if err.(iface).t != nil {
+			return tuple{false, err}
+		}
+		return tuple{out.n.ival.Sign() > 0, iface{}}
+	})
+	reg(rp+"ExpireCtx", func(fr *frame, a []value) value {
+		r := fr.i.run
+		t, _ := r.intTerm(a[3])
+		_, err := run(fr, a[1], lstr("EXPIRE"), lstr(a[2]), luaVal{k: lNum, n: t})
+		return err
+	})
+	rtTable["RedisFailAt"] = func(fr *frame, a []value) value {
+		m := fr.i.run.redisModel()
+		m.failAt = m.calls + int(fr.i.run.concreteInt(a[0]))
+		m.failAtSet = true
+		return nil
+	}
 
 	// ---- verifrt access to the model
 	strArg := func(v value) value { return v }
